@@ -98,6 +98,7 @@ def corpus():
         "T|new 4;property 1 2 1 1",
         "T|new 8", "T|new 9", "T|new -1",
         # F75 / F76 / F77 / F78 as correspondence cases (exception class instead of a crash)
+        "H|otc|0 3|0:rs", "H|raw|0 3|0:rs", "H|otc|2 2|0:rm:3 2:add:o",
         "#GC ctrait-default saveall", "#GC itrait-handler-closure saveall",
         "U|n n s c9|1 2 3 4|s", "U|s c9|1 2|v", "#V Tuple(Any,Any,Float) | t_conv3 | set",
         "#V Either(Str,Tuple(Any,Float)) | t_conv2 | set",
@@ -131,6 +132,8 @@ def generate(rng, tier):
     for c in C14.gen_T(rng, True, probes=True):
         yield c
     for c in L.gen_v(True):
+        yield c
+    for c in gen_h(rng, {"quick": 150, "thorough": 3000}.get(tier, 1000)):
         yield c
     for sc in SUB.GC_SCENARIOS:
         yield "#GC %s saveall" % sc
@@ -205,6 +208,72 @@ def judge_gc(spec, ans, asan):
     return "ok", hits
 
 
+def h_spec(case):
+    _, kind, counts, acts = case.split("|")
+    tc, oc = [int(x) for x in counts.split()]
+    return {"kind": kind.strip(), "t": tc, "o": oc, "acts": acts.split()}
+
+
+def judge_h(case, ans, asan):
+    spec = h_spec(case)
+    pop = "anytrait-only" if spec["t"] == 0 else "trait-only" if spec["o"] == 0 else "mixed"
+    act = "-".join(sorted(set(a.split(":")[1] for a in spec["acts"]))) or "none"
+    if "crash" in ans:
+        return "crash", [{"signature": "crash:notifier-list-changed-during-dispatch:%s:%s" % (spec["kind"], pop),
+                          "what": "handlers that change the notifier lists during dispatch%s: %s" % (
+                              " (ASan+UBSan build)" if asan else "", SUB.crash_summary(ans)),
+                          "stderr_tail": ans.get("stderr", "")[-1500:]}]
+    if ans.get("error"):
+        return "harness-exception " + ans["error"], []
+    out = ans["out"]
+    hits = []
+    # ---------------- oracle: snapshot semantics, stated directly
+    n = spec["t"] + spec["o"]
+    want = list(range(n))
+    first = [int(x) for x in out.split("calls=[")[1].split("]")[0].split(",") if x]
+    if first != want:
+        hits.append({"signature": "dispatch-not-from-snapshot:%s:%s:%s" % (spec["kind"], pop, act),
+                     "what": "%d handlers were registered when the change happened (trait-level first): called %r, "
+                             "each registered handler must be called exactly once, in order" % (n, first)})
+    return out, hits
+
+
+def run_h(case):
+    ans = _server(False).request({"k": "H", "spec": h_spec(case)})
+    out, hits = judge_h(case, ans, False)
+    return out, hits, ["H:" + h_spec(case)["kind"]]
+
+
+def gen_h(rng, n):
+    out = []
+    for kind in ("otc", "raw", "observe"):
+        pops = [(0, 2), (0, 3), (0, 5), (2, 0), (3, 0), (1, 2), (2, 2), (3, 1)] if kind != "observe" else \
+            [(2, 0), (3, 0), (5, 0)]
+        for tc, oc in pops:
+            tot = tc + oc
+            for i in range(tot):
+                out.append("H|%s|%d %d|%d:rs" % (kind, tc, oc, i))
+                for j in range(tot):
+                    if j != i:
+                        out.append("H|%s|%d %d|%d:rm:%d" % (kind, tc, oc, i, j))
+                out.append("H|%s|%d %d|%d:add:t" % (kind, tc, oc, i))
+                if kind != "observe":
+                    out.append("H|%s|%d %d|%d:add:o" % (kind, tc, oc, i))
+            out.append("H|%s|%d %d|%s" % (kind, tc, oc, " ".join("%d:rs" % i for i in range(tot))))
+            out.append("H|%s|%d %d|0:rs %d:rm:0" % (kind, tc, oc, tot - 1))
+    for _ in range(n):
+        kind = rng.choice(["otc", "otc", "raw"])
+        tc, oc = rng.choice([(0, rng.randint(2, 8)), (rng.randint(1, 4), rng.randint(0, 4))])
+        tot = tc + oc
+        acts = []
+        for i in rng.sample(range(tot), rng.randint(1, min(3, tot))):
+            r = rng.random()
+            acts.append("%d:rs" % i if r < 0.4 else "%d:rm:%d" % (i, rng.randrange(tot)) if r < 0.75 else
+                        "%d:add:%s" % (i, rng.choice("to")))
+        out.append("H|%s|%d %d|%s" % (kind, tc, oc, " ".join(sorted(acts, key=lambda a: int(a.split(":")[0])))))
+    return out
+
+
 def run_gc(case):
     _, sc, mode = case.split()
     spec = {"scenario": sc, "mode": mode}
@@ -226,6 +295,8 @@ def run_impl(case):
         return L.run_v(case)
     if case.startswith("U|"):
         return L.run_u(case)
+    if case.startswith("H|"):
+        return run_h(case)
     raise ValueError(case)
 
 
@@ -297,6 +368,7 @@ def extra_checks(ctx):
         progs.append({"family": "raw-ctrait", "traits": {"i": "int"}, "steps": [
             ["new", "o"], ["raw_ctrait", 0, "default", v, "all"], ["gc"]]})
     gc_specs = [{"scenario": sc, "mode": "plain"} for sc in SUB.GC_SCENARIOS]
+    h_cases = gen_h(random.Random(ctx["seed"] * 31 + 7), 400)
     nthreads = 12
     hits = []
     lock = threading.Lock()
@@ -312,6 +384,16 @@ def extra_checks(ctx):
                     stats["gc"] = stats.get("gc", 0) + 1
                     for h in hs:
                         h["case"] = "#GC %s plain" % spec["scenario"]
+                        h["impl"] = out
+                        h["no_shrink"] = True
+                        hits.append(h)
+            for hc in (h_cases[chunks.index(chunk)::nthreads] if chunk in chunks else []):
+                ans = srv.request({"k": "H", "spec": h_spec(hc)})
+                out, hs = judge_h(hc, ans, True)
+                with lock:
+                    stats["h"] = stats.get("h", 0) + 1
+                    for h in hs:
+                        h["case"] = hc
                         h["impl"] = out
                         h["no_shrink"] = True
                         hits.append(h)
@@ -339,7 +421,8 @@ def extra_checks(ctx):
     for t in ths:
         t.join()
     _EXTRA.update({"sanitizer_tier": "ASan+UBSan build (clang-14, PYTHONMALLOC=malloc), %d programs, %d ended in a crash/report; %d "
-                                     "gc-during-dealloc scenarios" % (stats["run"], stats["crashes"], stats.get("gc", 0))})
+                                     "gc-during-dealloc scenarios; %d handler-list-mutation cases" % (
+                                         stats["run"], stats["crashes"], stats.get("gc", 0), stats.get("h", 0))})
     return hits
 
 
